@@ -7,8 +7,8 @@ import Desert.Lemmas.Misc
 type expression and value (no depth bound) by induction, for an arbitrary continuation `t`
 (consumption, C07) and an arbitrary shared string table.
 
-Modelled, not proved here (DESIGN §7): the conversions between chrono / BigDecimal / Uuid objects
-and the field tuples on the wire; hash iteration order; UTF-8 validity of Rust `String`s is the
+Modelled, not proved here (DESIGN §7): the conversions between chrono / BigDecimal / BigInt objects
+and the field tuples on the wire (the tuples themselves: `leaf_description_roundtrip`, family `leaves`); hash iteration order; UTF-8 validity of Rust `String`s is the
 hypothesis `v.utf8OK`. Fuel: `dec env fuel ty` is the decoder with nesting budget `fuel`; the
 statements hold for every budget above the value's nesting depth, and `depth_le_length` shows
 `|input| + 1` (what `decodeTop` uses) is such a budget.
@@ -69,6 +69,27 @@ theorem builtin_roundtrip_faithful (ty : Ty) (v : Val) (b : Bytes) (st' : EncSt)
   | err e => rw [hr] at hsim; simp [Sim] at hsim
   | panic w => rw [hr] at hsim; simp [Sim] at hsim
 
+/-- the chrono / big-number leaves are written as fixed sequences of primitives (`Lemmas/Leaves.lean`: their wire
+descriptions as model tuple types; the `leaves` family holds the real codecs against them). A description's
+encoding is the tuple's version byte 0 followed by the leaf's bytes `body`, and decoding `0 :: body ++ t` gives
+the components back, leaving exactly `t`: the round trip of the leaf's *layout*, for every component value.
+What stays outside the model is the library's map between objects and components (DESIGN §7). -/
+theorem leaf_description_roundtrip (fs : Ty) (v : Val) (b : Bytes) (st' : EncSt)
+    (he : enc [] (.tuple fs) v [] = .ok (b, st')) (hu : v.utf8OK) (t : Bytes) :
+    ∃ body, b = 0 :: body ∧
+      ∃ s', decodeAbs [] (.tuple fs) (0 :: (body ++ t)) = .ok (v, s') ∧ s'.view = t ∧ s'.cur.pos = body.length + 1 := by
+  cases v with
+  | list items =>
+    have hb : ∃ b0, b = 0 :: b0 := by
+      simp only [enc] at he
+      cases hx : encTupleFields [] fs items [] with
+      | ok r => obtain ⟨b0, st0⟩ := r; simp [hx] at he; exact ⟨b0, he.1.symm⟩
+      | err e => simp [hx] at he
+      | panic w => simp [hx] at he
+    obtain ⟨b0, rfl⟩ := hb
+    obtain ⟨s', h1, h2, h3⟩ := builtin_roundtrip (.tuple fs) (.list items) (0 :: b0) st' he hu t
+    exact ⟨b0, rfl, s', by simpa using h1, h2, by simpa using h3⟩
+  | _ => simp [enc, illTyped] at he
 /-! non-vacuity: concrete nested values meet the hypotheses -/
 example : ∃ b st', enc [] (.option (.seq (.tuple (.fcons (.prim (.int 1 false)) (.fcons (.prim .bool) .fnil)))))
     (.some (.list (.vcons (.list (.vcons (.int 5) (.vcons (.bool true) .vnil))) .vnil))) [] = .ok (b, st') :=
